@@ -19,6 +19,9 @@ the dimension` computed here from the program's own declarations (never from pym
 
 A program is a subject variable `x` (category, shape/path, attributes, equations) plus helpers; the space is
 all programs within <= k deviations from the per-category base program (k = 2 quick, 3 thorough).
+
+Two families of genuine defects get fixed signatures (KNOWN_TRIGGERS): a failing program is charged to one only if its
+smallest failing sub-program carries the family's trigger features and stops failing when exactly those are removed.
 """
 import itertools
 import math
@@ -250,7 +253,8 @@ def valid(spec):
 
 
 def build(spec):
-    """Program text + declared table {unexpanded name: (path, pre, post)} for every declared variable."""
+    """Program text, declared table {unexpanded name: (path, is_der, attributes spanning the outer dims)} for every
+    variable the program declares, and the number of elements of x."""
     kind, path = spec["kind"], SHAPES[spec["shape"]]
     integer = spec["integer"]
     typ = "Integer" if integer else "Real"
@@ -633,14 +637,12 @@ def compare(mu, me, table, seed, npoints):
     points = [point(p) for p in range(npoints)]
 
     # -- attributes
-    any_mx = False
     for g in GROUPS:
         for acc, uname, idx, D, leaf, isd in exp[g]:
             ename = rename[(uname, idx)]
             for a in ATTRS:
                 uval, evalue = getattr(uvars[uname], a), getattr(evars[ename], a)
                 is_mx = isinstance(uval, (ca.MX, list)) or isinstance(evalue, (ca.MX, list))
-                any_mx = any_mx or is_mx
                 for vu, ve in points if is_mx else points[:1]:
                     try:
                         u = numeric(mu, uval, vu)
@@ -769,7 +771,9 @@ def deviations(spec):
     return [(k, spec[k]) for k in ALTS if spec[k] != DEFAULT[k]]
 
 
-ARRAY_FORMS = ("arr-lit", "dm-fill", "dm-scaled", "mx-arr", "param-arr", "list-mx")
+# array-valued forms written inside the class: the value has only the inner dims when x sits in a component array
+# (with param-arr it is the value of the helper parameter q, declared next to x, that is such an inner array)
+ARRAY_FORMS = ("arr-lit", "dm-fill", "dm-scaled", "param-arr")
 
 
 def inner_array_attribute(spec):
